@@ -192,6 +192,13 @@ def _monitored_cls():
     return _MON[0]
 
 
+class _NoPool:
+    """Stands in for the multiprocessing.Pool(1) that LayoutExtractor creates and never uses."""
+
+    def __init__(self, *a, **k):
+        pass
+
+
 class SimPool:
     """Drop-in for multiprocessing.Pool as parse_folder uses it.  Chunking as CPython
     3.12 (divmod(len, 4 * processes)); every chunk gets its own unpickled copy of the
@@ -331,6 +338,7 @@ def snapshot(root):
             if f == 'data.mdb':
                 # an LMDB environment: its logical content (key -> value hash), not the page file
                 import lmdb
+                lmdb = lmdb.__dict__.get('_real', lmdb)       # never the simulator's proxy: reading the tree is not an event
                 env = lmdb.open(dp, readonly=True, lock=False)
                 try:
                     with env.begin() as txn:
@@ -462,6 +470,8 @@ class PfWorld:
         layout.datetime = kernel.make_fake_datetime(self.clock)
         page_parser.time = ft
         decoding_itf.construct_lm = toylm.construct_lm
+        saved['pp_pool'] = page_parser.__dict__.get('Pool')
+        page_parser.Pool = _NoPool       # LayoutExtractor.__init__ creates a Pool(1) that nothing uses
         self._installed = (pf, layout, page_parser, decoding_itf, saved)
         _ACTIVE[0] = self
 
@@ -480,6 +490,8 @@ class PfWorld:
             else:
                 setattr(layout, k, v)
         page_parser.time = saved['pp_time']
+        if saved.get('pp_pool') is not None:
+            page_parser.Pool = saved['pp_pool']
         decoding_itf.construct_lm = saved['construct_lm']
         if 'lmdb' in saved:
             sys.modules['lmdb'] = saved['lmdb']
@@ -510,6 +522,18 @@ class PfWorld:
             extra['LAYOUT_PARSER_1'] = {'METHOD': 'LINE_POSTPROCESSING', 'STRETCH_LINES': str(cfg['postprocess'].get('stretch', 4)),
                                         'RESAMPLE_LINES': 'yes' if cfg['postprocess'].get('resample') else 'no',
                                         'HEIGHTS_FROM_REGIONS': 'no'}
+        if mode == 'cnn':
+            # the CNN layout stage with a stub ParseNet (sim.cnnstub), then cropper and OCR
+            from . import cnnstub
+            pp['RUN_LAYOUT_PARSER'] = 'yes'
+            pp['RUN_LINE_CROPPER'] = 'yes'
+            pp['RUN_OCR'] = 'yes'
+            extra['LAYOUT_PARSER_1'] = {
+                'METHOD': 'LAYOUT_CNN', 'MODEL_PATH': cnnstub.ensure_parsenet(cdir), 'DETECT_REGIONS': 'yes', 'DETECT_LINES': 'yes',
+                'DETECT_STRAIGHT_LINES_IN_REGIONS': 'no', 'MERGE_LINES': 'no', 'ADJUST_HEIGHTS': 'no', 'MULTI_ORIENTATION': 'no',
+                'ADJUST_BASELINES': 'no', 'USE_CPU': 'yes', 'DOWNSAMPLE': str(cfg.get('cnn_downsample', 4)),
+                'ADAPTIVE_DOWNSAMPLE': 'yes' if cfg.get('cnn_adaptive', True) else 'no', 'DETECTION_THRESHOLD': '0.2', 'MAX_MEGAPIXELS': '5'}
+            extra['LINE_CROPPER'] = {'INTERP': '2', 'LINE_SCALE': '1', 'LINE_HEIGHT': str(stubocr.LINE_HEIGHT)}
         if mode == 'layout':
             pp['RUN_LAYOUT_PARSER'] = 'yes'
             pp['RUN_LINE_CROPPER'] = 'yes' if ('lines' in plan['outputs'] or plan.get('layout_ocr')) else 'no'
@@ -530,16 +554,20 @@ class PfWorld:
         if not run_decoder:
             dcfg.setdefault('type', 'GREEDY')
         self.ini = write_decoder_config(cdir, dcfg, run_decoder=run_decoder, extra_sections=extra)
-        if mode == 'ocr' or plan.get('layout_ocr'):
+        if mode in ('ocr', 'cnn') or plan.get('layout_ocr'):
             os.remove(os.path.join(cdir, 'ocr.json'))
             stubocr.ensure_engine_files(cdir, self.chars)
         self.in_img = self.in_xml = self.in_logits = None
         ids = [p['id'] for p in plan['pages']]
-        if mode in ('ocr', 'crop', 'layout') or plan.get('with_images'):
+        if mode in ('ocr', 'crop', 'layout', 'cnn') or plan.get('with_images'):
             self.in_img = os.path.join(self.root, 'in_img')
             os.makedirs(self.in_img)
             for p in plan['pages']:
-                img = stubocr.paint_text_page(self.img_spec(p)) if mode == 'layout' else stubocr.paint_page(self.img_spec(p), cfg['nchars'])
+                if mode == 'cnn':
+                    from . import cnnstub
+                    img = cnnstub.paint_cnn_page(dict(self.img_spec(p), ink_height=p.get('ink_height', 24), same_left_edge=p.get('same_left_edge', False)), cfg['nchars'])
+                else:
+                    img = stubocr.paint_text_page(self.img_spec(p)) if mode == 'layout' else stubocr.paint_page(self.img_spec(p), cfg['nchars'])
                 cv2.imwrite(os.path.join(self.in_img, p['id'] + p.get('ext', '.png')), img)
         if mode in ('ocr', 'crop'):
             self.in_xml = os.path.join(self.root, 'in_xml')
